@@ -104,7 +104,7 @@ impl Default for Case {
     }
 }
 
-pub const WAIT: Duration = Duration::from_secs(20);
+pub const WAIT: Duration = Duration::from_secs(40);
 
 impl Running {
     /// waits until everything sent so far (`sent` harness events + announced self-sends) is consumed
